@@ -135,10 +135,10 @@ func (s *sessionMetadatasState) Get(id string) (api.SessionMetadatas, error) {
 	return v, nil
 }
 
-func (s *sessionMetadatasState) ByClientID(clientID string) (api.SessionMetadatas, error) {
+func (s *sessionMetadatasState) ByClientID(clientID string, mountPoint string) (api.SessionMetadatas, error) {
 	s.mu.Lock()
 	defer s.mu.Unlock()
-	return s.find(func(s api.SessionMetadatas) bool { return s.ClientID == clientID })
+	return s.find(func(s api.SessionMetadatas) bool { return s.ClientID == clientID && s.MountPoint == mountPoint })
 }
 func (s *sessionMetadatasState) ByPeer(peer uint64) []api.SessionMetadatas {
 	s.mu.Lock()
